@@ -10,4 +10,4 @@ ASSUMPTIONS = ["denotational equality of two bindings is NOT decided; only that 
 def run(ctx):
     return [T.type_as_rule(ctx.syn, "C14"), F.variant_rule(ctx.mir("default")["ts_rs_macros"], "C14", rule="C14.R2"), F.selector_rule(ctx.mir("default")["ts_rs_macros"], "C14"), T.decl_rule(ctx.syn, "C14", rule="C14.R4", crate=ctx.mir("default")["ts_rs_macros"]),
             F.pairing_rule(ctx.mir("default")["ts_rs_macros"], "C14", rule="C14.R5"), T.enum_flatten_parens_rule(ctx.syn, "C14"), F.named_composition_rule(ctx.mir("default")["ts_rs_macros"], "C14"), X.underscore_walker_rule(ctx.mir("default")["ts_rs_macros"], "C14"), T.object_merge_rule(ctx.syn, "C14", "C14.R9"), T.paren_strip_rule(ctx.syn, "C14", "C14.R10"), F.intersection_operand_rule(ctx.mir("default")["ts_rs_macros"], "C14", "C14.R12"),
-            L.class_table_rule(ctx.syn, ctx.mir("default")["ts_rs"], "C14", rule="C14.R11"), L.totality_rule(ctx.mir("default")["ts_rs"], "C14", rule="C14.R13"), T.generated_state_rule(ctx.syn, "C14", "C14.R14"), T.enum_override_order_rule(ctx.syn, "C14", "C14.R15", crate=ctx.mir("default")["ts_rs_macros"]), T.operand_scanner_rule(ctx.syn, "C14", rule="C14.R16"), L.units_rule(ctx.mir("default")["ts_rs"], "C14")]
+            L.class_table_rule(ctx.syn, ctx.mir("default")["ts_rs"], "C14", rule="C14.R11"), L.forwarding_rule(ctx.mir("default")["ts_rs"], "C14", rule="C14.R14"), L.totality_rule(ctx.mir("default")["ts_rs"], "C14", rule="C14.R13"), T.generated_state_rule(ctx.syn, "C14", "C14.R14"), T.enum_override_order_rule(ctx.syn, "C14", "C14.R15", crate=ctx.mir("default")["ts_rs_macros"]), T.operand_scanner_rule(ctx.syn, "C14", rule="C14.R16"), L.units_rule(ctx.mir("default")["ts_rs"], "C14")]
